@@ -213,3 +213,11 @@ def fromEpName (s : List Char) : Option (List Char × Ver) :=
   | _ => none
 
 end MetadorModel.Plugin
+
+namespace MetadorModel.Plugin
+
+/-- `PluginMetaclassMixin.__new__`: creating a class raises `TypeError` iff one of the bases
+(given as the list of "is marked by `UndefVersion`" flags, in order) is marked. -/
+def newRaises (marked : List Bool) : Bool := marked.any id
+
+end MetadorModel.Plugin
